@@ -77,3 +77,7 @@ template class crab::cfg::basic_block<basic_block_label_t, varname_t, ikos::z_nu
 template class crab::cfg::cfg_ref<z_cfg_t>;
 template class crab::cfg::cfg_rev<z_cfg_ref_t>;
 template class crab::cfg::basic_block_rev<z_basic_block_t>;
+// set_domain::rename is instantiated by no client in the tree (the sets of constraints of the flat Boolean domain never
+// rename): instantiate it over variables so that the twin of discrete_domain::rename is analysed too
+template void crab::domains::set_domain<crab::cfg_impl::z_var, std::less<crab::cfg_impl::z_var>>::rename(
+    const std::vector<crab::cfg_impl::z_var> &, const std::vector<crab::cfg_impl::z_var> &);
